@@ -11,6 +11,7 @@ import UF.Driver.Ops.GroupI1
 import UF.Driver.Ops.GroupI2
 import UF.Driver.Ops.GroupI3
 import UF.Driver.Ops.GroupL
+import UF.Driver.Ops.GroupR1
 /- Dispatch of the line protocol: each group file handles its own ops. -/
 namespace UF
 
@@ -18,7 +19,8 @@ def dispatch (op : String) (args : List W) : String :=
   (Ops.dispatchCore op args <|> Ops.dispatchA op args <|> Ops.dispatchB op args <|>
    Ops.dispatchC op args <|> Ops.dispatchD op args <|> Ops.dispatchE op args <|>
    Ops.dispatchF op args <|> Ops.dispatchG op args <|> Ops.dispatchH op args <|>
-   Ops.dispatchI1 op args <|> Ops.dispatchI2 op args <|> Ops.dispatchI3 op args <|> Ops.dispatchL op args).getD "unknown-op"
+   Ops.dispatchI1 op args <|> Ops.dispatchI2 op args <|> Ops.dispatchI3 op args <|> Ops.dispatchL op args <|>
+   Ops.dispatchR1 op args).getD "unknown-op"
 
 /-- One protocol line: `<op> <values…> [= <go answer…>]` ↦ the driver's answer. -/
 def handleLine (line : String) : String :=
